@@ -19,7 +19,7 @@ def run(ctx):
         ctx.floor(f"{ver}|who-updates-roles", len(callers), 5)
         for root in sorted(callers):
             b = ctx.body(root)
-            fn = root.rsplit("::", 1)[1]
+            fn = root.rsplit("::", 1)[-1]
             ups = b.calls(re.escape(mod) + r"update_role_assignment$")
             check_guarded(ctx, f"{ver}|{fn}|after-transition", b, [x for x, _ in ups], [G_try(re.escape(mod) + r"transition_mut$")], "update_role_assignment")
             for bb, t in ups:
